@@ -4,6 +4,10 @@
 
 package client
 
+// (C15) Nothing in this package creates, replaces, renames or removes a file:
+// the outfile is only ever touched through mapr.(*GroupSet).WriteResult.
+//@ fs-writers-only nothing
+
 //@ type Aggregate invariant [made] self.query != nil && self.group != nil && self.globalGroup != nil
 
 // The key=value pieces of an aggregate message as a map (C05): every piece with
